@@ -87,6 +87,25 @@ func runC12(c *Ctx) {
 	isRunCtx := func(v ssa.Value) bool { return isRunCtxD(v, 0) }
 
 	// creation events
+	// the goroutine body makes an instance: directly, or through a function of the package it calls (two levels:
+	// go launcher.runNew(id) -> runNewInstance -> newInstance)
+	var makesInstance func(body *ssa.Function, depth int) bool
+	makesInstance = func(body *ssa.Function, depth int) bool {
+		found := false
+		EachInstrDeep(body, func(_ *ssa.Function, i2 ssa.Instruction) {
+			cc := CC(i2)
+			if cc == nil || cc.StaticCallee() == nil || found {
+				return
+			}
+			sc := cc.StaticCallee()
+			if sc == runNew || sc == newInst {
+				found = true
+			} else if depth < 2 && sc.Pkg != nil && sc.Pkg == newInst.Pkg && len(sc.Blocks) > 0 && sc != body {
+				found = makesInstance(sc, depth+1)
+			}
+		})
+		return found
+	}
 	createsInstance := func(in ssa.Instruction) bool {
 		switch x := in.(type) {
 		case *ssa.Call:
@@ -95,15 +114,12 @@ func runC12(c *Ctx) {
 			mc, ok := x.Call.Value.(*ssa.MakeClosure)
 			if !ok {
 				sc := x.Call.StaticCallee()
-				return sc == runNew || sc == newInst
-			}
-			found := false
-			EachInstrDeep(mc.Fn.(*ssa.Function), func(_ *ssa.Function, i2 ssa.Instruction) {
-				if cc := CC(i2); cc != nil && (cc.StaticCallee() == runNew || cc.StaticCallee() == newInst) {
-					found = true
+				if sc == runNew || sc == newInst {
+					return true
 				}
-			})
-			return found
+				return sc != nil && sc.Pkg == newInst.Pkg && len(sc.Blocks) > 0 && makesInstance(sc, 0)
+			}
+			return makesInstance(mc.Fn.(*ssa.Function), 1)
 		}
 		return false
 	}
@@ -212,6 +228,20 @@ func runC12(c *Ctx) {
 						if cl, ok := i2.(*ssa.Call); ok && cl.Call.StaticCallee() == runNew {
 							laterID = cl.Call.Args[3]
 							laterCall = cl
+						}
+					})
+				} else if sc := x.Call.StaticCallee(); sc != nil && len(sc.Blocks) > 0 {
+					// go launcher.runNew(id): the id the goroutine's function passes on is its own parameter
+					EachInstrDeep(sc, func(_ *ssa.Function, i2 ssa.Instruction) {
+						cl, ok := i2.(*ssa.Call)
+						if !ok || cl.Call.StaticCallee() != runNew {
+							return
+						}
+						for i, p := range sc.Params {
+							if DerivesOnly(cl.Call.Args[3], false, func(v ssa.Value) bool { return v == ssa.Value(p) }) && i < len(x.Call.Args) {
+								laterID = x.Call.Args[i]
+								laterCall = cl
+							}
 						}
 					})
 				}
